@@ -789,3 +789,224 @@ Proof.
     symmetry. apply existsb_exists. exists CANCELLED. split; [|reflexivity].
     rewrite <- Hcc. apply in_map, in_map, Hin.
 Qed.
+
+(* ------------------------------------------------------------------ *)
+(* no request creates a task or an execution: the shape of the tree      *)
+Fixpoint tshape (n : node) : node :=
+  match n with
+  | mkN _ _ _ ts => mkN RUNNING 0 0 (map (fun t : task => let '(_, k, subs) := t in (RUNNING, k, map tshape subs)) ts)
+  end.
+
+Lemma tshape_map (F : node -> node) st info sent ts (g : state -> kind -> list node -> state) st' info' sent' :
+  Forall (fun t : task => Forall (fun c => tshape (F c) = tshape c) (snd t)) ts ->
+  tshape (mkN st' info' sent' (map (fun t : task => let '(s, k, subs) := t in (g s k subs, k, map F subs)) ts)) =
+  tshape (mkN st info sent ts).
+Proof.
+  intro H. simpl. f_equal. rewrite map_map. apply map_ext_Forall. rewrite Forall_forall in *. intros t Ht.
+  specialize (H t Ht). destruct t as [[s k] subs]. simpl in *. f_equal. rewrite map_map. apply map_ext_Forall. exact H.
+Qed.
+
+Lemma tshape_cancel m n : forall c, tshape (cancel c m n) = tshape n.
+Proof.
+  induction n as [st info sent ts IH] using node_ind'. intro c. cbn [cancel].
+  destruct (is_completed st); unfold finish;
+    apply (tshape_map (cancel true m) st info sent ts (fun s _ _ => s));
+    (rewrite Forall_forall in *; intros t Ht; specialize (IH t Ht); rewrite Forall_forall in *; intros x Hx; apply (IH x Hx)).
+Qed.
+
+Lemma tshape_pause_down n : tshape (pause_down n) = tshape n.
+Proof.
+  induction n as [st info sent ts IH] using node_ind'. cbn [pause_down].
+  apply (tshape_map pause_down st info sent ts
+           (fun s k subs => match k with
+                            | Plain => if existsb (fun c => state_eqb (nstate c) RUNNING) subs
+                                       then (if is_completed st then ERROR else task_pause s) else s
+                            | Items => s end)). exact IH.
+Qed.
+
+Lemma tshape_resume_walk n : tshape (resume_walk n) = tshape n.
+Proof.
+  induction n as [st info sent ts IH] using node_ind'. cbn [resume_walk].
+  destruct (is_completed st || resumable st); [|reflexivity].
+  apply (tshape_map resume_walk st info sent ts
+           (fun s k subs => match k with
+                            | Plain => if existsb (fun c => resumable (nstate c)) subs &&
+                                          negb (existsb (fun c => state_eqb (nstate c) PAUSED) (map resume_walk subs))
+                                       then task_resume s else s
+                            | Items => s end)). exact IH.
+Qed.
+
+Lemma tshape_resume_down n : tshape (resume_down n) = tshape n.
+Proof. unfold resume_down. destruct (resumable (nstate n)); [apply tshape_resume_walk|reflexivity]. Qed.
+
+(* replacing a task state and one sub-workflow by one of the same shape *)
+Lemma tshape_subst st info sent ts ti si s k subs c c' s' :
+  nth_error ts ti = Some (s, k, subs) -> nth_error subs si = Some c -> tshape c' = tshape c ->
+  tshape (mkN st info sent (upd ti (fun _ => (s', k, upd si (fun _ => c') subs)) ts)) = tshape (mkN st info sent ts).
+Proof.
+  intros Ht Hs Hc. simpl. f_equal. apply (map_upd _ _ _ _ _ Ht). f_equal. apply (map_upd _ _ _ _ _ Hs). exact Hc.
+Qed.
+
+Lemma tshape_task_state st info sent ts ti s k subs s' :
+  nth_error ts ti = Some (s, k, subs) ->
+  tshape (mkN st info sent (upd ti (fun _ => (s', k, subs)) ts)) = tshape (mkN st info sent ts).
+Proof. intro Ht. simpl. f_equal. apply (map_upd _ _ _ _ _ Ht). reflexivity. Qed.
+
+Lemma tshape_stop_node c s m n : tshape (fst (stop_node c s m n)) = tshape n.
+Proof.
+  destruct n as [st info sent ts]. unfold stop_node. destruct s; try reflexivity.
+  - destruct (state_eqb st SUCCESS); [reflexivity|]. destruct (can_go st SUCCESS); reflexivity.
+  - destruct (cancel_ok (mkN st info sent ts)); [apply tshape_cancel|reflexivity].
+  - destruct (is_completed st); [reflexivity|]. destruct (can_go st ERROR); reflexivity.
+Qed.
+
+Lemma tshape_at_path (f : bool -> node -> node * outcome) :
+  (forall c n, tshape (fst (f c n)) = tshape n) ->
+  forall p c n r, at_path p f c n = Some r -> tshape (fst r) = tshape n.
+Proof.
+  intros Hf. induction p as [|[ti si] rest IH]; intros c n r H; cbn [at_path] in H.
+  - injection H as <-. apply Hf.
+  - destruct n as [st info sent ts]. unfold task in *.
+    destruct (nth_error ts ti) as [[[s k] subs]|] eqn:Et; [|discriminate].
+    destruct (nth_error subs si) as [x|] eqn:Es; [|discriminate].
+    destruct (at_path rest f true x) as [[x' o]|] eqn:Ea; [|discriminate].
+    injection H as <-. cbn [fst]. apply (tshape_subst _ _ _ _ _ _ _ _ _ _ _ _ Et Es). apply (IH true x _ Ea).
+Qed.
+
+Opaque pause_down resume_down.
+Lemma tshape_pause_path p : forall n n' up, pause_path p n = Some (n', up) -> tshape n' = tshape n.
+Proof.
+  induction p as [|[ti si] rest IH]; intros n n' up H; cbn [pause_path] in H.
+  - destruct (state_eqb (nstate n) RUNNING || state_eqb (nstate n) PAUSED); [|discriminate].
+    injection H as <- _. apply tshape_pause_down.
+  - destruct n as [st info sent ts]. unfold task in *.
+    destruct (nth_error ts ti) as [[[s k] subs]|] eqn:Et; [|discriminate].
+    destruct (nth_error subs si) as [x|] eqn:Es; [|discriminate].
+    destruct (pause_path rest x) as [[x' u]|] eqn:Ea; [|discriminate].
+    pose proof (fun s' => tshape_subst st info sent ts ti si s k subs x x' s' Et Es (IH x x' u Ea)) as K.
+    cbv zeta in H.
+    destruct (u && match k with Plain => true | Items => false end); injection H as <- _.
+    + rewrite tshape_pause_down. apply K.
+    + apply K.
+Qed.
+
+Lemma tshape_resume_path p : forall n n' up, resume_path p n = Some (n', up) -> tshape n' = tshape n.
+Proof.
+  induction p as [|[ti si] rest IH]; intros n n' up H; cbn [resume_path] in H.
+  - injection H as <- _. apply tshape_resume_down.
+  - destruct n as [st info sent ts]. unfold task in *.
+    destruct (nth_error ts ti) as [[[s k] subs]|] eqn:Et; [|discriminate].
+    destruct (nth_error subs si) as [x|] eqn:Es; [|discriminate].
+    destruct (resume_path rest x) as [[x' u]|] eqn:Ea; [|discriminate].
+    pose proof (fun s' => tshape_subst st info sent ts ti si s k subs x x' s' Et Es (IH x x' u Ea)) as K.
+    cbv zeta in H.
+    match type of H with (if ?b then _ else _) = _ => destruct b end; injection H as <- _.
+    + rewrite tshape_resume_down. apply K.
+    + apply K.
+Qed.
+
+Lemma tshape_up_pause st info sent ts ti s k subs T :
+  (forall s', tshape (mkN st info sent (upd ti (fun _ => (s', k, subs)) ts)) = T) ->
+  tshape (fst (up_pause st info sent ts ti s k subs)) = T.
+Proof. intro H. unfold up_pause. cbv zeta. cbn [fst]. rewrite tshape_pause_down. apply H. Qed.
+
+Lemma tshape_up_resume st info sent ts ti s k subs T :
+  (forall s', tshape (mkN st info sent (upd ti (fun _ => (s', k, subs)) ts)) = T) ->
+  tshape (fst (up_resume st info sent ts ti s k subs)) = T.
+Proof.
+  intro H. unfold up_resume. cbv zeta.
+  match goal with |- context [if any_task_paused ?b then _ else _] => destruct (any_task_paused b) end; cbn [fst]; [apply H|].
+  rewrite tshape_resume_down. apply H.
+Qed.
+
+Opaque up_pause up_resume.
+Lemma tshape_notify_path p : forall n n' nt, notify_path p n = Some (n', nt) -> tshape n' = tshape n.
+Proof.
+  induction p as [|[ti si] rest IH]; intros n n' nt H; cbn [notify_path] in H; [discriminate|].
+  destruct n as [st info sent ts]. unfold task in *.
+  destruct (nth_error ts ti) as [[[s k] subs]|] eqn:Et; [|discriminate].
+  destruct (nth_error subs si) as [x|] eqn:Es; [|discriminate].
+  assert (P : forall (r : node * note), Some r = Some (n', nt) -> n' = fst r) by (intros r Hr; injection Hr as ->; reflexivity).
+  destruct rest as [|q rest'].
+  - destruct (finished x); [injection H as <- _; reflexivity|].
+    destruct (state_eqb (nstate x) PAUSED).
+    + rewrite (P _ H). apply tshape_up_pause. intro s'. apply (tshape_task_state _ _ _ _ _ _ _ _ _ Et).
+    + destruct (is_running (nstate x)); [|injection H as <- _; reflexivity].
+      rewrite (P _ H). apply tshape_up_resume. intro s'. apply (tshape_task_state _ _ _ _ _ _ _ _ _ Et).
+  - destruct (notify_path (q :: rest') x) as [[x' nt']|] eqn:Ea; [|discriminate].
+    pose proof (fun s' => tshape_subst st info sent ts ti si s k subs x x' s' Et Es (IH x x' nt' Ea)) as K.
+    cbv zeta in H.
+    destruct nt', k; try (injection H as <- _; apply K);
+      rewrite (P _ H); [apply tshape_up_pause|apply tshape_up_resume]; exact K.
+Qed.
+Transparent up_pause up_resume pause_down resume_down.
+
+Lemma tshape_deliver_path p : forall n n', deliver_path p n = Some n' -> tshape n' = tshape n.
+Proof.
+  induction p as [|[ti si] rest IH]; intros n n' H; cbn [deliver_path] in H; [discriminate|].
+  destruct n as [st info sent ts]. unfold task in *.
+  destruct (nth_error ts ti) as [[[s k] subs]|] eqn:Et; [|discriminate].
+  destruct (nth_error subs si) as [x|] eqn:Es; [|discriminate].
+  destruct rest as [|q rest'].
+  - destruct (finished x); [|discriminate]. injection H as <-. simpl. f_equal. apply (map_upd _ _ _ _ _ Et). reflexivity.
+  - destruct (deliver_path (q :: rest') x) as [x'|] eqn:Ed; [|discriminate]. injection H as <-.
+    apply (tshape_subst _ _ _ _ _ _ _ _ _ _ _ _ Et Es). apply (IH _ _ Ed).
+Qed.
+
+Lemma tshape_apply_op n o : tshape (apply_op n o) = tshape n.
+Proof.
+  destruct o; cbn [apply_op].
+  - unfold stop_at, guarded. destruct (in_class n); [|reflexivity].
+    destruct (at_path p (fun child c => stop_node child s m c) false n) as [r|] eqn:E; [|reflexivity].
+    apply (tshape_at_path (fun child c => stop_node child s m c) (fun c n0 => tshape_stop_node c s m n0) _ _ _ _ E).
+  - unfold pause_at, guarded. destruct (in_class n); [|reflexivity].
+    destruct (pause_path p n) as [[n' u]|] eqn:E; [|reflexivity]. apply (tshape_pause_path _ _ _ _ E).
+  - unfold resume_at. destruct (in_class n); [|reflexivity].
+    destruct (resume_path p n) as [[n' u]|] eqn:E; [|reflexivity]. destruct (settled n'); [|reflexivity].
+    apply (tshape_resume_path _ _ _ _ E).
+  - unfold deliver_at. destruct (deliver_path p n) as [n'|] eqn:E; [|reflexivity]. apply (tshape_deliver_path _ _ _ E).
+  - unfold notify_at. destruct (in_class n); [|reflexivity].
+    destruct (notify_path p n) as [[n' u]|] eqn:E; [|reflexivity]. destruct (settled n'); [|reflexivity].
+    apply (tshape_notify_path _ _ _ _ E).
+Qed.
+
+(* no stop / cancel / pause / resume request, no report and no hand-off ever creates a task or an execution *)
+Theorem requests_create_nothing ops : forall n, tshape (fold_left apply_op ops n) = tshape n.
+Proof. induction ops as [|o r IH]; intro n; simpl; [reflexivity|]. now rewrite IH, tshape_apply_op. Qed.
+
+(* the only thing that adds an execution is the start of a sub-workflow; below a CANCELLED execution it adds a
+   CANCELLED one with the parent's message that owns no task and has reported once *)
+Theorem late_child_is_cancelled_and_empty parent :
+  nstate parent = CANCELLED -> new_child parent = mkN CANCELLED (ninfo parent) 1 [].
+Proof. intro H. unfold new_child. now rewrite H. Qed.
+
+(* ... and it never gets a task, never changes and never reports again, whatever requests follow *)
+Theorem late_child_stays_empty parent ops :
+  nstate parent = CANCELLED ->
+  ntasks (fold_left apply_op ops (new_child parent)) = [] /\
+  rows false (fold_left apply_op ops (new_child parent)) = rows false (new_child parent).
+Proof.
+  intro H. rewrite (late_child_is_cancelled_and_empty _ H). split.
+  - pose proof (requests_create_nothing ops (mkN CANCELLED (ninfo parent) 1 [])) as T.
+    destruct (fold_left apply_op ops (mkN CANCELLED (ninfo parent) 1 [])) as [st i se ts]. simpl in *.
+    injection T as T. destruct ts; [reflexivity|discriminate].
+  - pose proof (finished_rows_never_change ops (mkN CANCELLED (ninfo parent) 1 [])) as K.
+    remember (rows false (fold_left apply_op ops (mkN CANCELLED (ninfo parent) 1 []))) as R. cbn [rows flat_map] in *.
+    inversion K as [|a b l l' Hab Hl]; subst. inversion Hl; subst. f_equal. now apply Hab.
+Qed.
+
+(* its result, once processed, cancels the (unfinished) Plain parent task; an Items one as soon as it is processed *)
+Theorem late_child_cancels_parent_task parent s :
+  nstate parent = CANCELLED -> is_completed s = false ->
+  deliver_task (s, Plain, [new_child parent]) = (CANCELLED, Plain, [new_child parent]).
+Proof.
+  intros H Hs. rewrite (late_child_is_cancelled_and_empty _ H). unfold deliver_task, dstate. simpl. now rewrite Hs.
+Qed.
+
+(* the start touches nothing else: the existing rows keep their place, one row is added *)
+Theorem start_adds_executions_to_one_task ti cnt c st info sent ts s k subs :
+  nth_error ts ti = Some (s, k, subs) ->
+  fst (start_node ti cnt c (mkN st info sent ts)) =
+  mkN st info sent (upd ti (fun _ => ((if state_eqb s IDLE then RUNNING else s), k,
+                                       subs ++ repeat (new_child (mkN st info sent ts)) cnt)) ts).
+Proof. intro H. unfold start_node. unfold task in *. now rewrite H. Qed.
